@@ -188,7 +188,7 @@ func (v *Vocab) domJSON(rename func(kind, name string) string) []map[string]inte
 // modules changed it is exported again by TLC (C12_WRITE_VOCAB=1 rewrites the file).
 func specHash(r *core.Run) string {
 	h := sha1.New()
-	for _, f := range []string{"Css.tla", "CssGen.tla"} {
+	for _, f := range []string{"Css.tla", "CssGen.tla", "CssVals.tla"} {
 		b, _ := os.ReadFile(filepath.Join(r.Verif, "spec", f))
 		h.Write(b)
 	}
